@@ -360,9 +360,10 @@ func (s *Spec) Step(ctx context.Context, st *State, pending interface{}, c *Cont
 		// In a new major version, we should consider
 		// (re-)enforcing a default branch for action nodes
 		// (or moving back to the richer type system).
-		if bs == nil {
-			bs = NewBindings()
-		}
+		//
+		// (Extend a copy: an action can return the bindings
+		// it was given, which are the caller's.)
+		bs = bs.Copy()
 		bs, _ = bs.Extendm("error", "Action node followed no branch",
 			"lastNode", givenState.NodeName,
 			"lastBindings", map[string]interface{}(givenState.Bs.Copy()))
